@@ -10,7 +10,7 @@ VARIABLES tid, fin, i, bad
 T == Traces[tid]
 TInit == tid \in 1..Len(Traces) /\ fin = FALSE /\ i = 1 /\ bad = <<>> /\ KInit
 
-Act(e) == CASE e.op = "ctor" -> Ctor(e.h) [] e.op = "make" -> Make(e.h) [] e.op = "pooled" -> Pooled(e.h) [] e.op = "borrow" -> Borrow(e.h)
+Act(e) == CASE e.op = "ctor" -> Ctor(e.h) [] e.op = "make" -> Make(e.h) [] e.op = "pooled" -> Pooled(e.h) [] e.op = "makearr" -> MakeArr(e.h) [] e.op = "borrow" -> Borrow(e.h)
             [] e.op = "clone" -> Clone(e.h, e.g) [] e.op = "method" -> Method(e.h) [] e.op = "copy" -> Copy(e.h, e.g)
             [] e.op = "dtor" -> Dtor(e.h) [] e.op = "release" -> Release(e.h)
 SetOf(s) == {s[k] : k \in 1..Len(s)}
